@@ -153,6 +153,8 @@ def generic_union_members(out):
 
 
 def run(ctx, out):
+    import families as _fam
+    out.evaluations += _fam.same_class_union_serialisation(out, PROP)
     out.rule = ('unions at top level and nested, 50% drawn from overlap families (int/float/bool/complex, list/tuple, str/Literal, '
                 'dict/dataclass, dataclass/dataclass, conditions), x values (valid for a random member / near / arbitrary); the '
                 'union result is compared with each member tried alone in declaration order; serialisation compared with the '
